@@ -282,6 +282,10 @@ def run(ctx):
         "adjacency_tensor indexes by label (one-symbol exemption: the property restricts the tensor to hypergraphs on nodes 0..N-1)",
         "LabelEncoder: transform maps labels to 0..N-1 in sorted label order, classes_ is that order, inverse_transform is its inverse (library summary)",
     ]
+    with res.guard("general lint pack over the property's files"):
+        from ..lints import check_pack
+
+        check_pack(ctx, res, "C09")
     return res
 
 
